@@ -3,6 +3,8 @@
 # without comments and proof scripts) of every Model/ and Proofs/ file, because pinned theorems mention definitions that
 # live there (view_ok, is_pow2, run_sound, items, ordered, ...): redefining one of them would change what a theorem
 # says without touching Properties/ or Spec/.  coq/gen/*.v is regenerated from the source on every run and is not
-# pinned.  Run deliberately after reviewing a change.
-cd "$(dirname "$0")/../coq" && { sha256sum Properties/*.v Spec/*.v; python3 ../tools/stmt_hash.py Model/*.v Proofs/*.v; } > ../statements.lock
+# pinned; neither is Model/WrapStrTab.v, which tools/gen_strtab.py rewrites from src/stringify.rs on every run (a mirror, not a
+# spec: the hand-transcribed tables of Model/Util.v and the util correspondence are what a swapped name trips).  Run deliberately after reviewing a change.
+cd "$(dirname "$0")/../coq" && { sha256sum Properties/*.v Spec/*.v; python3 ../tools/stmt_hash.py $(ls Model/*.v Proofs/*.v | grep -v '^Model/WrapStrTab.v$'); } > ../statements.lock
 wc -l ../statements.lock
+python3 ../tools/closure_audit.py || echo "lock_statements: files outside every property closure - Require them from a Properties file"
